@@ -226,6 +226,11 @@ func cmdCheck(args []string) int {
 				relevant = true
 			}
 		}
+		for _, b := range c.Behaviors {
+			if hasProp(b.Props, *prop) {
+				relevant = true
+			}
+		}
 		if !relevant {
 			continue
 		}
@@ -255,6 +260,18 @@ func cmdCheck(args []string) int {
 		for _, bc := range append([]*FuncContract{c}, c.Behaviors...) {
 			if bc.Trusted {
 				continue
+			}
+			if len(c.Behaviors) > 0 {
+				// several behaviours with their own property lists: only those of this property are generated
+				rel := hasProp(bc.Props, *prop)
+				for _, e := range bc.Ensures {
+					if hasProp(e.Props, *prop) {
+						rel = true
+					}
+				}
+				if !rel {
+					continue
+				}
 			}
 			wg.Add(1)
 			go func(c *FuncContract) {
